@@ -132,3 +132,11 @@ Definition comms_ok (S : list session) : Prop :=
   forall s a c, In s S -> In a (s_advs s) -> In (false, c) (a_comms a) -> String.prefix "large:" c = false.
 Definition comms_ok_b (S : list session) : bool :=
   forallb (fun s => forallb (fun a => forallb (fun c => fst c || negb (String.prefix "large:" (snd c))) (a_comms a)) (s_advs s)) S.
+
+(* FRR matches BINARY prefixes; Model/FrrSem.v matches prefix TEXTS.  The two coincide when, among the
+   requested prefixes and the probe route, equal prefixes have equal texts (texts are canonical: what
+   net.IPNet.String prints for a masked prefix) - hypothesis of C14_text_match_is_binary_match. *)
+Definition canonical_texts (S : list session) (route : pfx) : Prop :=
+  forall x y, In x (route :: all_pfx S) -> In y (route :: all_pfx S) -> p_net x = p_net y -> p_text x = p_text y.
+Definition canonical_texts_b (S : list session) (route : pfx) : bool :=
+  all2 (route :: all_pfx S) (fun x y => imp (prefix_eqb (p_net x) (p_net y)) (String.eqb (p_text x) (p_text y))).
